@@ -14,6 +14,18 @@ import (
 	"verif/engine/vsched"
 )
 
+// YieldOnUnlock makes every Unlock/RUnlock a scheduling point as well (after
+// the lock is released).  Needed when the window of interest lies between a
+// release and code that performs no further hooked operation (e.g. a leveldb
+// write); it roughly doubles the number of points, so harnesses opt in.
+var YieldOnUnlock bool
+
+func afterUnlock(what string) {
+	if YieldOnUnlock && vsched.Active() {
+		vsched.Yield(what)
+	}
+}
+
 // Locker mirrors sync.Locker.
 type Locker = sync.Locker
 
@@ -59,6 +71,7 @@ func (m *Mutex) TryLock() bool {
 func (m *Mutex) Unlock() {
 	m.locked = false
 	m.real.Unlock()
+	afterUnlock("Mutex.Unlock")
 }
 
 // ---------------------------------------------------------------- RWMutex
@@ -96,6 +109,7 @@ func (m *RWMutex) RLock() {
 func (m *RWMutex) RUnlock() {
 	m.readers--
 	m.real.RUnlock()
+	afterUnlock("RWMutex.RUnlock")
 }
 
 // Lock takes the write lock.
@@ -114,6 +128,7 @@ func (m *RWMutex) Lock() {
 func (m *RWMutex) Unlock() {
 	m.writer = false
 	m.real.Unlock()
+	afterUnlock("RWMutex.Unlock")
 }
 
 // TryLock / TryRLock mirror the standard library.
